@@ -61,7 +61,7 @@ func main() {
 	worker.Run(r, worker.Opts{Phase: "hist", Total: r.N(3000, 30000), Batch: 100})
 	if bin := os.Getenv("VERIF_RACE_BIN"); bin != "" {
 		raceDir, _ := os.MkdirTemp("", "verif-c07-race-")
-		defer os.RemoveAll(raceDir)
+		r.Cleanup(func() { os.RemoveAll(raceDir) })
 		worker.Run(r, worker.Opts{Phase: "race", Total: r.N(60, 1500), Batch: 30, Bin: bin,
 			Env: []string{"GORACE=halt_on_error=0 log_path=" + filepath.Join(raceDir, "race")}})
 		n := countRaceReports(raceDir, r)
